@@ -126,13 +126,14 @@ pub struct VariableTime {
 
 impl Display for VariableTime {
     fn fmt(&self, f: &mut std::fmt::Formatter<'_>) -> std::fmt::Result {
-        write!(f, "{}", self.event)?;
+        let sign = match self.offset.cmp(&0) {
+            Ordering::Less => '-',
+            Ordering::Greater => '+',
+            Ordering::Equal => return write!(f, "{}", self.event),
+        };
 
-        match self.offset.cmp(&0) {
-            Ordering::Less => write!(f, "{}", self.offset),
-            Ordering::Greater => write!(f, "+{}", self.offset),
-            Ordering::Equal => Ok(()),
-        }
+        let offset = self.offset.unsigned_abs();
+        write!(f, "({}{sign}{:02}:{:02})", self.event, offset / 60, offset % 60)
     }
 }
 
